@@ -160,6 +160,48 @@ def run(ctx, budget):
                         scripts.append((lg2, script + [('r',)] * 3))
                         ctx.count('directed_type_then_range_scripts')
 
+    # argument objects are reused by callers: ONE TimeRange object applied to readers of different logs (different first P1
+    # times), in both orders; every reader must behave as if it had been given a range object of its own
+    from fusion_engine_client.parsers import MixedLogReader
+    from fusion_engine_client.utils.time_range import TimeRange
+    shared = []
+    timed = [lg2 for lg2 in logs if any(m['timeNs'] is not None for m in lg2[2])]
+    for i in range(len(timed)):
+        for j in range(len(timed)):
+            if i == j:
+                continue
+            for a, b in ((0.25, None), (None, 1.0), (0.5, 2.0)):
+                tr = TimeRange(start=a, end=b)
+                results = []
+                for lg2 in (timed[i], timed[j]):
+                    try:
+                        r = MixedLogReader(lg2[1], num_threads=1, return_header=False, return_payload=False, return_message_index=True)
+                        r.filter_in_place(tr)
+                        got = []
+                        while len(got) < 200:
+                            try:
+                                got.append('m%d' % int(r.read_next()[0]))
+                            except StopIteration:
+                                got.append('stop')
+                                break
+                        r.input_file.close()
+                        results.append(got)
+                    except BaseException as e:
+                        results.append(['raise:%s' % type(e).__name__])
+                f = lambda x: 'n' if x is None else str(int(round(x * rc.NS)))
+                for lg2, got in zip((timed[i], timed[j]), results):
+                    text = 'T:r/%s/%s/n;' % (f(a), f(b)) + ';'.join(['r'] * len(got))
+                    shared.append((lg2, text, got, {'files': [timed[i][0].hex(), timed[j][0].hex()], 'shared_time_range': [a, b],
+                                                    'reader_of_file': 0 if lg2 is timed[i] else 1}))
+                ctx.count('shared_time_range_object_pairs')
+    shared_lines = ['rdcursorspec %s %s' % (rc.log_text(lg2[2]), text) for lg2, text, _, _ in shared]
+    for (lg2, text, got, replay), so in zip(shared, ctx.driver(shared_lines) if shared_lines else []):
+        want = so.split(',')[1:]
+        if got != want:
+            ctx.violation('C11/reader-depends-on-an-argument-object-used-elsewhere',
+                          'one relative TimeRange object applied to the readers of two logs: reader %d answered %s, the filtered-list '
+                          'cursor of its own log gives %s' % (replay['reader_of_file'], got[:12], want[:12]), replay)
+
     def untuple(o):
         return tuple(tuple(x) if isinstance(x, list) and o[0] == 'T' else x for x in o)
     for k, r in enumerate(fv.corpus('C11')):      # regression corpus first
